@@ -44,57 +44,7 @@ class View(object):
         return View(v)
 
 
-class Rewriter(ast.NodeTransformer):
-    def __init__(self):
-        self.olds = []
-
-    def visit_Call(self, n):
-        if isinstance(n.func, ast.Name):
-            f = n.func.id
-            if f == 'old':
-                k = len(self.olds)
-                self.olds.append(n.args[0])
-                return ast.Subscript(value=ast.Name(id='__old', ctx=ast.Load()), slice=ast.Constant(k), ctx=ast.Load())
-            if f == 'implies':
-                a, b = self.visit(n.args[0]), self.visit(n.args[1])
-                return ast.BoolOp(op=ast.Or(), values=[ast.UnaryOp(op=ast.Not(), operand=a), b])
-            if f == 'isnone':
-                return ast.Compare(left=self.visit(n.args[0]), ops=[ast.Is()], comparators=[ast.Constant(None)])
-            if f == 'unchanged':
-                conj = []
-                for a in n.args:
-                    k = len(self.olds)
-                    self.olds.append(a)
-                    conj.append(ast.Compare(left=self.visit(a), ops=[ast.Eq()], comparators=[
-                        ast.Subscript(value=ast.Name(id='__old', ctx=ast.Load()), slice=ast.Constant(k), ctx=ast.Load())]))
-                return ast.BoolOp(op=ast.And(), values=conj) if len(conj) > 1 else conj[0]
-            if f in ('forall', 'exists'):
-                var = n.args[0].value
-                body = self.visit(n.args[3])
-                gen = ast.GeneratorExp(elt=body, generators=[ast.comprehension(
-                    target=ast.Name(id=var, ctx=ast.Store()),
-                    iter=ast.Call(func=ast.Name(id='range', ctx=ast.Load()), args=[self.visit(n.args[1]), self.visit(n.args[2])], keywords=[]),
-                    ifs=[], is_async=0)])
-                return ast.Call(func=ast.Name(id='all' if f == 'forall' else 'any', ctx=ast.Load()), args=[gen], keywords=[])
-            if f in ('mv', 'memoryview'):
-                return self.visit(n.args[0])
-        return self.generic_visit(n)
-
-
-def compile_clause(text):
-    sys.path.insert(0, '/verif')
-    from pyvc.spectext import rewrite_implies
-    tree = ast.parse(rewrite_implies(text.strip()), mode='eval')
-    rw = Rewriter()
-    body = rw.visit(tree.body)
-    ex = ast.Expression(body=body)
-    ast.fix_missing_locations(ex)
-    olds = []
-    for o in rw.olds:
-        e = ast.Expression(body=o)
-        ast.fix_missing_locations(e)
-        olds.append(compile(e, '<old>', 'eval'))
-    return compile(ex, '<clause>', 'eval'), olds
+from replay.clause import Rewriter, compile_clause  # noqa: E402,F401
 
 
 def main():
